@@ -50,19 +50,34 @@ CHECKS = {
         technique="Coq proof (relational kinds-only argument over parser and printers; induction over nesting for indentation) + correspondence and format-twice oracle through the binary"),
     "C02": dict(
         category="other",
-        text="Machine-checked for ALL Unicode texts (Props/C02.v): every panic site of lexer::lex and parser::parse is "
-             "unreachable and the recursion is bounded (C02_lex_total, C02_parse_total, C02_parse_fuel, C02_new_tree_total: "
-             "AnalyzedSource::new always produces tokens and a tree), table construction never reaches `'main' must be a "
-             "procedure`, semantic analysis never reaches `Named declaration without entry`. The models make every "
-             "expect/unwrap/index/slice site an explicit outcome, and the check requires the model to predict Done/Panic exactly "
-             "as the implementation does on the malformed stream (new + errors()) and on edit histories (update). Not proved, "
-             "only fuzzed against the library and the built binary: the Identifier::to_error assert and the index sites of "
-             "errors() (pending Proofs/RangeProofs), the 13 request handlers on arbitrary documents and positions (one "
-             "well-formed response per request, process alive; documents nested up to depth 400), the runtime. "
-             "AnalyzedSource::update can panic after edits (known finding C02-incparse-panic, class: predicted by the model of the "
-             "pinned incremental parser).",
-        design_ref="DESIGN.md section 5, C02",
-        technique="Coq proof of totality/panic-freedom of the lexer and parser models + model/implementation correspondence on outcomes + request fuzzing of the binary"),
+        text="Machine-checked for ALL Unicode texts (Props/C02.v): AnalyzedSource::new never panics and always terminates "
+             "(C02_new_doc_total: every expect/unwrap/assert/index site of lexer::lex, parser::parse, table::build, "
+             "table::analyze is unreachable and the parser's recursion is bounded by a stated fuel), AnalyzedSource::errors() "
+             "never panics and every published range lies inside the document (C02_errors_total, C02_errors_inside, "
+             "C02_analysis_total). The models make every panic site an explicit outcome, and the check requires the model to "
+             "predict Done/Panic exactly as the implementation does on the malformed stream and on edit histories. Not proved, "
+             "only fuzzed against the built binary: the 13 request handlers on arbitrary documents and positions (one "
+             "well-formed response per request, process alive; documents nested up to depth 400; partial handler theorems are "
+             "in C12-C17), the runtime. AnalyzedSource::update can panic after edits (known finding C02-incparse-panic, class: "
+             "predicted by the model of the pinned incremental parser).",
+        design_ref="DESIGN.md sections 5 (C02) and 10.2",
+        technique="Coq proof of totality/panic-freedom of the whole analysis pipeline model (lexer, parser, table, semantic analysis, diagnostics conversion) + model/implementation correspondence on outcomes + request fuzzing of the binary"),
+    "C03": dict(
+        category="other",
+        text="Machine-checked (Props/C03.v, 48 theorems): for ARBITRARY trees and tables the analysis algorithm agrees with a "
+             "declarative typing of SPL (Spec/Typing.v): no false positive (C03_analyze_sound, C03_build_sound), no false "
+             "negative (C03_analyze_complete, C03_analyze_exact), per rule exactly that rule's message at the node the rule names "
+             "(19 semantic + 10 declaration C03_rule_* theorems), a single semantic fault at any depth yields exactly one "
+             "diagnostic (C03_single_fault_*), published positions are the node ranges shifted by the enclosing Reference "
+             "offsets (C03_localisation), and for EVERY text every published range lies inside the document "
+             "(C03_every_published_range_inside). From texts on: any text that lexes to the tokens of a well-typed abstract "
+             "program gets no diagnostic (C03_no_false_positive, via the C04 round trip; the lexer's output is a hypothesis). "
+             "Stated, not proved: the single-fault statement for the declaration rules and missing-token faults over rendered "
+             "texts (C03_full_statement). The check validates the pipeline on rendered programs: well-typed => none; 27+ "
+             "single-fault injectors => exactly the prescribed diagnostic(s) on the culprit's byte range; LSP publishDiagnostics "
+             "equal; model = implementation on everything incl. the malformed stream.",
+        design_ref="DESIGN.md sections 5 (C03) and 10.2",
+        technique="Coq proof relating the analysis algorithm to a declarative SPL typing for all trees + correspondence and fault-injection oracle on the implementation"),
     "C04": dict(
         category="proof",
         text="Theorem C04_roundtrip (Props/C04.v), for ALL abstract programs of the SPL grammar (precedence levels, left "
